@@ -186,6 +186,7 @@ int World::on_epoll_wait(int epfd, void *events, int maxevents, int timeout) {
 		if (++epoll_after_sigterm > 3) { violation("C07", "no-exit-on-sigterm", "daemon keeps waiting for events after the termination signal"); }
 		errno = EINTR; in_daemon = true; return -1;
 	}
+	if (epoll_intr > 0 && started) { epoll_intr--; probe("fault:epoll_wait_interrupted"); trace.tag("epoll-eintr"); errno = EINTR; in_daemon = true; return -1; }
 	for (;;) {
 		if (++res.st.steps > step_cap) { res.inconclusive = true; res.inconclusive_why = "step cap reached"; finish(0); bail(); }
 		if (any_pending() && (!holding || held > 48)) {
